@@ -1,6 +1,7 @@
 """C03  Interpolation is exact on the function space spanned by the grid's basis (declared-space table and routing)."""
 from tsg.facts import DB, callee, short
 from rules import c02
+from tsg.build import AnalysisBroken
 
 
 def run(chk):
@@ -28,5 +29,17 @@ def run(chk):
                                "takes the loaded points whenever there are any")
     ns = workset.workset_rule(chk, db, "C03-D4.workset")
     chk.floor("C03-D4.workset", ns, 35, "work-set selections in the grid classes")
+    from rules import product
+    chk.rule("C03-D5.tensor", "every basis function is the tensor product of its one-dimensional factors: the value routines are folded for num_dimensions = 1..4 with the factors as symbols tagged "
+                              "by the indexes that address them, the result must be prod_k V_k(point[k], x[k]) (wavelet integrals: prod_k W_k)")
+    nt = 0
+    for name, kind in (("TasGrid::GridLocalPolynomial::evalBasisSupported", "V"), ("TasGrid::GridLocalPolynomial::evalBasisRaw", "V"), ("TasGrid::GridWavelet::evalBasis", "V"),
+                       ("TasGrid::GridWavelet::evalIntegral", "W"), ("TasGrid::GridSequence::evaluate", "V")):
+        fs = db.fns(name, required=False)
+        got = sum(product.value_rule(chk, db, "C03-D5.tensor", f, kind) for f in fs)
+        if not got:
+            raise AnalysisBroken("C03-D5: %s is no longer in a foldable form" % name)
+        nt += got
+    chk.floor("C03-D5.tensor", nt, 40, "folded tensor-product value routines (function x dimension)")
     return expl + (" Added: column/value agreement of the Kronecker Vandermonde pattern and the work-set selection of every grid method (the listed space, the evaluated surrogate and the weights "
-                   "refer to the same point set).")
+                   "refer to the same point set); tensor-product structure of the basis value routines.")
